@@ -248,7 +248,7 @@ def _one(r, shape, n, frame, colour, ov):
     r.check(bad_patch is None, vcell("patch-data"), "Patches(i,j).img is the base array at rois[i][j]", first=bad_patch, **detail)
     r.check(bad_box is None, vcell("corner-order"), "global_corners_voxels is a box listed as top-left, bottom-left, bottom-right, top-right", first=bad_box, **detail)
     r.check(bad_interior is None, vcell("patch-at-corners"), "the interior of patch (i,j) is the sub-image of the base between its advertised voxel corners", first=bad_interior, **detail)
-    r.check(bad_place is None, f"C19/patch-placement/{cls}/{ovc}", "a (non-empty) patch sits at the voxels of its roi: origin = coordinate of the roi start, dimensions = extent of the voxels it holds", first=bad_place, **detail)
+    r.check(bad_place is None, vcell("patch-placement"), "a (non-empty) patch sits at the voxels of its roi: origin = coordinate of the roi start, dimensions = extent of the voxels it holds", first=bad_place, **detail)
 
     # ---- re-assembly
     try:
